@@ -227,7 +227,8 @@ def run(ctx):
         src = names.get('R' if comp == 'quantizer_r' else 'I')
         want = T.mk_tuple([T.mk_call('mean', [src]), T.mk_call('std', [src])]) if src is not None else NONE
         ctx.formula('ARGBIND', f'{comp} receives the mean and deviation of the decoded ' + ('real' if comp == 'quantizer_r' else 'imaginary') + ' parts',
-                    rnb, T.mk_tuple(e.data['args'][1:]), want, node=e.node)
+                    rnb, (T.mk_tuple([e.data['bound'].get('target_mean', NONE), e.data['bound'].get('target_std', NONE)])
+                          if e.data.get('bound') else T.mk_tuple(e.data['args'][1:])), want, node=e.node)
 
 
 META = {
